@@ -1,5 +1,6 @@
-"""C03: see DESIGN.md section 5. Collector-core property: theorems in coq/Props/C03.v, tie by lock-step."""
-from props import core
+"""C03: see DESIGN.md section 5. Collector-core property: theorems in coq/Props/C03.v, tie by lock-step,
+plus the static call-graph theorem over the regenerated call graph (coq-api/Props/C03Static.v)."""
+from props import core, static_facts
 
 SETUP_KEY = core.SETUP_KEY
 setup = core.setup
@@ -7,6 +8,9 @@ setup = core.setup
 
 def run(chk, tier, seed):
     core.run_core(chk, "C03", tier, seed)
+    trusted = list(chk.trusted)
+    static_facts.callgraph_obligations(chk)
+    chk.trusted = trusted + [t for t in chk.trusted if t not in trusted]
 
 
 def replay(path):
